@@ -12,6 +12,7 @@ import torch
 from core import Ctx, Violation, err_name, line, tensor_groups
 
 PROP = "C02"
+EXTRA_LEAN_MODULES = ["DirectVerif.Lemmas.C02Tensor", "DirectVerif.Lemmas.C02Sums"]
 MANIFEST = {
     "text": "Lean 4 theorems over R/C (Mathlib) about the same scalar-polymorphic definitions the driver executes over Rat: "
             "complex_multiplication / conjugate / complex_division (non-zero divisor; zero divisor gives 0) / squared modulus / "
@@ -98,14 +99,55 @@ def _fmt(shape, fr):
     return s
 
 
-def _impl(fn, post=_frac_answer):
+def _same(u: torch.Tensor, v: torch.Tensor) -> bool:
+    return u.shape == v.shape and u.dtype == v.dtype and bool(torch.all((u == v) | (torch.isnan(u) & torch.isnan(v))))
+
+
+def _impl(fn, post=_frac_answer, inputs=()):
+    """thunk running the real code; `inputs` are the tensors handed to it: they must come back unmodified (bit-identical
+    values, same dtype / shape) — an in-place update of an argument is reported as `err InputModified`"""
     def run():
+        snap = [x.clone() for x in inputs]
         try:
             out = fn()
         except (ValueError, TypeError, IndexError, RuntimeError, AssertionError) as e:
             return "err " + err_name(e)
+        if any(not _same(x, y) for x, y in zip(inputs, snap)):
+            return "err InputModified"
         return post(out)
     return run
+
+
+LAYOUTS = ("contig", "contig", "contig", "perm", "strided", "offset", "f64")
+
+
+def _layout(rng, t: torch.Tensor, kinds=LAYOUTS):
+    """the same values in another memory layout / dtype -> (tensor, tag): permuted storage (non-contiguous), a strided
+    view of a larger buffer, a view with a storage offset, float64"""
+    kind = rng.choice(kinds)
+    if kind == "perm" and t.ndim >= 2:
+        p = list(range(t.ndim))
+        rng.shuffle(p)
+        inv = [p.index(i) for i in range(t.ndim)]
+        return t.permute(p).contiguous().permute(inv), "perm"
+    if kind == "strided" and t.ndim >= 1:
+        big = torch.zeros([2 * n for n in t.shape], dtype=t.dtype)
+        v = big[tuple(slice(None, None, 2) for _ in t.shape)]
+        v.copy_(t)
+        return v, "strided"
+    if kind == "offset":
+        flat = torch.full((t.numel() + 3,), 7.0, dtype=t.dtype)
+        v = flat[3:].view(t.shape)
+        v.copy_(t)
+        return v, "offset"
+    if kind == "f64":
+        return t.double(), "f64"
+    return t, "contig"
+
+
+def _ltag(*tags) -> str:
+    tags = [t for t in tags if t != "contig"]
+    return "" if not tags else "/f64" if all(t == "f64" for t in tags) else "/layout"
 
 
 def _sq_answer(t: torch.Tensor) -> str:
@@ -133,26 +175,45 @@ def correspondence(ctx: Ctx):
 
     rng = ctx.rng
     G = lambda t: tensor_groups(t)  # noqa: E731
+    V = lambda t: _layout(rng, t)  # noqa: E731
     n = ctx.budget(3, 90)
-    # ---- complex_multiplication (same shapes + broadcasting pairs) / conjugate
+
+    def case(op_line, fn, inputs, nontrivial, bucket, post=_frac_answer, tags=()):
+        lt = _ltag(*tags)
+        return {"line": op_line, "impl": _impl(fn, post, inputs), "nontrivial": nontrivial, "bucket": bucket + lt,
+                "key": op_line + lt}
+
+    # ---- complex_multiplication (same shapes + broadcasting pairs, expanded stride-0 operands) / conjugate
     for _ in range(60 * n):
         sa = _cshape(rng)
-        mode = rng.choice(["same", "same", "bcast1", "drop-lead", "scalar"])
+        mode = rng.choice(["same", "same", "bcast1", "drop-lead", "scalar", "expanded"])
         sb = list(sa)
-        if mode == "bcast1":
+        if mode in ("bcast1", "expanded"):
             sb[rng.randrange(len(sb))] = 1
         elif mode == "drop-lead":
             sb = sb[rng.randint(1, len(sb) - 1):]
         elif mode == "scalar":
             sb = [1]
-        if rng.random() < 0.5:
-            sa, sb = sb, sa
         a, b = _ints(rng, sa + [2], -9, 9), _ints(rng, sb + [2], -9, 9)
-        yield {"line": line("cmul", *G(a), *G(b)), "impl": _impl(lambda a=a, b=b: T.complex_multiplication(a, b)),
-               "nontrivial": max(_prod(sa), _prod(sb)) > 1, "bucket": "cmul/" + mode}
+        if mode == "expanded":                      # the implementation sees a stride-0 view of the full shape
+            la, ta = V(a)
+            lb, tb = b.expand(sa + [2]), "expanded"
+            b = lb.contiguous()
+        else:
+            la, ta = V(a)
+            lb, tb = V(b)
+        if rng.random() < 0.5:
+            a, b, la, lb = b, a, lb, la
+        yield case(line("cmul", *G(a), *G(b)), lambda a=la, b=lb: T.complex_multiplication(a, b), (la, lb),
+                   max(_prod(sa), _prod(sb)) > 1, "cmul/" + mode, tags=(ta, tb))
     for _ in range(20 * n):
         a = _ints(rng, _cshape(rng) + [2], -9, 9)
-        yield {"line": line("conj", *G(a)), "impl": _impl(lambda a=a: T.conjugate(a)), "nontrivial": a.numel() > 2, "bucket": "conj"}
+        if rng.random() < 0.15:                     # stride-0 input: `conjugate` clones, then writes in place
+            a = a[..., :1, :].expand(a.shape).contiguous()
+            la, ta = a[..., :1, :].expand(a.shape), "expanded"
+        else:
+            la, ta = V(a)
+        yield case(line("conj", *G(a)), lambda a=la: T.conjugate(a), (la,), a.numel() > 2, "conj", tags=(ta,))
     # ---- complex_division: zero divisors, dyadic divisors (exact), general divisors (fraction recovered under tolerance)
     for _ in range(60 * n):
         sa = _cshape(rng)
@@ -187,8 +248,9 @@ def correspondence(ctx: Ctx):
                     return "err InexactQuotient"
                 fr.append(Fraction(p, d))
             return _fmt(list(out.shape), fr)
-        yield {"line": line("cdiv", *G(a), *G(b)), "impl": _impl(lambda a=a, b=b: T.complex_division(a, b), post),
-               "nontrivial": _prod(sa) > 1, "bucket": "cdiv/" + ("general-tol" if general else "dyadic") + ("/with-zeros" if nz else "")}
+        (la, ta), (lb, tb) = V(a), V(b)
+        yield case(line("cdiv", *G(a), *G(b)), lambda a=la, b=lb: T.complex_division(a, b), (la, lb), _prod(sa) > 1,
+                   "cdiv/" + ("general-tol" if general else "dyadic") + ("/with-zeros" if nz else ""), post, tags=(ta, tb))
     # ---- safe_divide directly (the zero-divisor rule is invisible through complex_division, whose numerators vanish there):
     #      non-zero numerators over zero / negative-zero divisors, broadcasting shapes
     for _ in range(40 * n):
@@ -209,8 +271,9 @@ def correspondence(ctx: Ctx):
         bi = b.clone()
         bi[(b == 0) & (torch.rand(sb) < 0.5)] = -0.0      # the implementation also sees negative zeros; the protocol sends 0
         nz = int((b == 0).sum())
-        yield {"line": line("sdiv", *G(a), *G(b)), "impl": _impl(lambda a=a, b=bi: T.safe_divide(a, b)),
-               "nontrivial": nz > 0, "bucket": "safe_divide/" + mode + ("/zero-divisors" if nz else "/no-zero")}
+        (la, ta), (lb, tb) = V(a), V(bi)
+        yield case(line("sdiv", *G(a), *G(b)), lambda a=la, b=lb: T.safe_divide(a, b), (la, lb), nz > 0,
+                   "safe_divide/" + mode + ("/zero-divisors" if nz else "/no-zero"), tags=(ta, tb))
     # ---- modulus_if_complex: squared modulus when the addressed axis has length 2, the data unchanged otherwise
     for _ in range(20 * n):
         sa = _cshape(rng, with_slice=False)
@@ -227,8 +290,9 @@ def correspondence(ctx: Ctx):
         def post(out, is_c=(shape[ax] == 2)):
             body = _sq_answer(out) if is_c else _frac_answer(out)
             return body if body.startswith("err") else f"ok {1 if is_c else 0} | " + body[3:]
-        yield {"line": line("modif", *G(x), [ax]), "impl": _impl(lambda x=x, ax=ax: T.modulus_if_complex(x, complex_axis=ax), post),
-               "nontrivial": x.numel() > 2, "bucket": "modulus_if_complex/" + kind}
+        lx, tx = V(x)
+        yield case(line("modif", *G(x), [ax]), lambda x=lx, ax=ax: T.modulus_if_complex(x, complex_axis=ax), (lx,),
+                   x.numel() > 2, "modulus_if_complex/" + kind, post, tags=(tx,))
     # ---- modulus (squared) with the complex axis anywhere; root_sum_of_squares (squared)
     for _ in range(30 * n):
         sa = _cshape(rng, with_slice=False)
@@ -238,8 +302,9 @@ def correspondence(ctx: Ctx):
         if rng.random() < 0.4:
             shape, ax = sa + [2], -1
         x = _ints(rng, shape, -20, 20)
-        yield {"line": line("modsq", *G(x), [ax]), "impl": _impl(lambda x=x, ax=ax: T.modulus(x, complex_axis=ax), _sq_answer),
-               "nontrivial": x.numel() > 2, "bucket": "modsq/" + ("last" if ax in (-1, len(shape) - 1) else "inner-axis")}
+        lx, tx = V(x)
+        yield case(line("modsq", *G(x), [ax]), lambda x=lx, ax=ax: T.modulus(x, complex_axis=ax), (lx,), x.numel() > 2,
+                   "modsq/" + ("last" if ax in (-1, len(shape) - 1) else "inner-axis"), _sq_answer, tags=(tx,))
     for _ in range(40 * n):
         sa = _cshape(rng)
         kind = rng.choice(["complex", "complex", "complex", "real", "real-last2"])
@@ -250,9 +315,20 @@ def correspondence(ctx: Ctx):
             dim -= rank_eff
         x = _ints(rng, shape, -12, 12)
         nt = shape[dim if dim >= 0 else dim + rank_eff] >= 2
-        yield {"line": line("rss", *G(x), [dim, -1]), "impl": _impl(lambda x=x, d=dim: T.root_sum_of_squares(x, dim=d), _sq_answer),
-               "nontrivial": nt, "bucket": "rss/" + kind + ("/c=1" if not nt else "")}
-    # ---- complex_dot_product over lists of axes
+        # the rarely used `complex_dim` option: default, the last axis by its positive index, or (complex data) another axis
+        cform = rng.choice(["default", "default", "positive-last", "other-axis"])
+        cd = -1 if cform == "default" else len(shape) - 1 if cform == "positive-last" else rng.randrange(len(shape))
+        if cform == "other-axis" and (shape[-1] != 2 or cd == len(shape) - 1):
+            cform, cd = "default", -1
+        if cform == "other-axis":
+            dim = rng.randrange(len(shape) - 1)
+            nt = True
+        lx, tx = V(x)
+        kw = {} if cform == "default" else {"complex_dim": cd}
+        yield case(line("rss", *G(x), [dim, cd]), lambda x=lx, d=dim, kw=kw: T.root_sum_of_squares(x, dim=d, **kw), (lx,), nt,
+                   "rss/" + kind + ("/c=1" if not nt else "") + ("" if cform == "default" else "/complex_dim=" + cform), _sq_answer,
+                   tags=(tx,))
+    # ---- complex_dot_product over lists / tuples of axes
     for _ in range(40 * n):
         sa = _cshape(rng)
         r = len(sa)
@@ -262,76 +338,118 @@ def correspondence(ctx: Ctx):
         if rng.random() < 0.2:
             dims = [d - (r + 1) for d in dims]      # negative axes of the (…, 2) tensor
         a, b = _ints(rng, sa + [2], -6, 6), _ints(rng, sa + [2], -6, 6)
-        yield {"line": line("cdot", *G(a), *G(b), dims), "impl": _impl(lambda a=a, b=b, d=dims: T.complex_dot_product(a, b, list(d))),
-               "nontrivial": nt, "bucket": f"cdot/{k}axes" + ("/neg" if dims[0] < 0 else "")}
-    # ---- complex_mm / complex_bmm
-    for _ in range(30 * n):
+        (la, ta), (lb, tb) = V(a), V(b)
+        as_tuple = rng.random() < 0.3
+        yield case(line("cdot", *G(a), *G(b), dims),
+                   lambda a=la, b=lb, d=dims, tp=as_tuple: T.complex_dot_product(a, b, tuple(d) if tp else list(d)), (la, lb), nt,
+                   f"cdot/{k}axes" + ("/neg" if dims[0] < 0 else "") + ("/tuple" if as_tuple else ""), tags=(ta, tb))
+    # ---- complex_mm / complex_bmm: all of 1 x m, n x 1, 1 x 1, batch 1; operands also as transposed (non-contiguous) storage
+    def cview(t):
+        z = torch.view_as_complex(t)
+        if z.ndim >= 2 and rng.random() < 0.4:
+            return z.transpose(-1, -2).contiguous().transpose(-1, -2), "perm"
+        return z, "contig"
+
+    for i in range(30 * n):
         nn, m, p = (rng.randint(1, 4) for _ in range(3))
+        if i % 5 == 0:
+            nn, m, p = rng.choice([(1, rng.randint(2, 4), 1), (rng.randint(2, 4), 1, rng.randint(2, 4)), (1, 1, 1), (1, 3, 2), (3, 2, 1)])
         a, b = _ints(rng, [nn, m, 2], -6, 6), _ints(rng, [m, p, 2], -6, 6)
-        yield {"line": line("mm", *G(a), *G(b)),
-               "impl": _impl(lambda a=a, b=b: torch.view_as_real(T.complex_mm(torch.view_as_complex(a), torch.view_as_complex(b)))),
-               "nontrivial": m >= 2, "bucket": "mm"}
-    for _ in range(20 * n):
+        (ca, ta), (cb, tb) = cview(a), cview(b)
+        yield case(line("mm", *G(a), *G(b)), lambda a=ca, b=cb: torch.view_as_real(T.complex_mm(a, b)), (ca, cb), m >= 2,
+                   "mm" + ("/row-or-column" if 1 in (nn, p) else "") + ("/inner=1" if m == 1 else ""), tags=(ta, tb))
+    for i in range(20 * n):
         bb, nn, m, p = (rng.randint(1, 3) for _ in range(4))
+        if i % 4 == 0:
+            bb = 1
         a, b = _ints(rng, [bb, nn, m, 2], -6, 6), _ints(rng, [bb, m, p, 2], -6, 6)
-        yield {"line": line("bmm", *G(a), *G(b)),
-               "impl": _impl(lambda a=a, b=b: torch.view_as_real(T.complex_bmm(torch.view_as_complex(a), torch.view_as_complex(b)))),
-               "nontrivial": m >= 2 and bb >= 2, "bucket": "bmm"}
-    # ---- expand / reduce with the coil axis at every position
+        (ca, ta), (cb, tb) = cview(a), cview(b)
+        yield case(line("bmm", *G(a), *G(b)), lambda a=ca, b=cb: torch.view_as_real(T.complex_bmm(a, b)), (ca, cb),
+                   m >= 2 and bb >= 2, "bmm" + ("/batch=1" if bb == 1 else ""), tags=(ta, tb))
+    # ---- expand / reduce with the coil axis at every position; sensitivity maps / operands with singleton (broadcast) axes
     for _ in range(14 * n):
         base = _cshape(rng)
         base.pop(1)                                  # image shape (b, [s], h, w)
         for dim in range(len(base) + 1):
             c = rng.choice([1, 2, 3, 4])
             ss = base[:dim] + [c] + base[dim:]
-            S = _ints(rng, ss + [2], -5, 5)
-            x = _ints(rng, base + [2], -5, 5)
-            y = _ints(rng, ss + [2], -5, 5)
+            sS, sx, sy = list(ss), list(base), list(ss)
+            bc = rng.choice(["", "", "", "/sens-singleton", "/image-singleton", "/data-singleton"])
+            j = rng.randrange(len(base))             # a non-coil axis, as an index of the image shape
+            jj = j if j < dim else j + 1             # … and of the coil-shaped tensors
+            if bc == "/sens-singleton":
+                sS[jj] = 1
+            elif bc == "/image-singleton":
+                sx[j] = 1
+            elif bc == "/data-singleton":
+                sy[jj] = 1
+            S = _ints(rng, sS + [2], -5, 5)
+            x = _ints(rng, sx + [2], -5, 5)
+            y = _ints(rng, sy + [2], -5, 5)
             d = dim if rng.random() < 0.8 else dim - (len(base) + 2)     # negative axis of the (…, 2) tensors
             dr = dim if d >= 0 else dim - (len(ss) + 1)
             tag = f"/r{len(base)}/dim{dim}" + ("/c=1" if c == 1 else "") + ("/neg" if d < 0 else "")
-            yield {"line": line("expand", *G(x), *G(S), [d]), "impl": _impl(lambda x=x, S=S, d=d: T.expand_operator(x, S, dim=d)),
-                   "nontrivial": c >= 2, "bucket": "expand" + tag}
-            yield {"line": line("reduce", *G(y), *G(S), [dr]), "impl": _impl(lambda y=y, S=S, d=dr: T.reduce_operator(y, S, dim=d)),
-                   "nontrivial": c >= 2, "bucket": "reduce" + tag}
-    # ---- malformed stream: no pair axis, shapes that do not broadcast, axes out of range
+            (lS, tS), (lx, tx), (ly, ty) = V(S), V(x), V(y)
+            if bc != "/data-singleton":
+                yield case(line("expand", *G(x), *G(S), [d]), lambda x=lx, S=lS, d=d: T.expand_operator(x, S, dim=d), (lx, lS),
+                           c >= 2, "expand" + tag + (bc if bc != "/data-singleton" else ""), tags=(tx, tS))
+            if bc != "/image-singleton":
+                yield case(line("reduce", *G(y), *G(S), [dr]), lambda y=ly, S=lS, d=dr: T.reduce_operator(y, S, dim=d), (ly, lS),
+                           c >= 2, "reduce" + tag + bc, tags=(ty, tS))
+    # ---- view_as_complex / view_as_real / tensor_to_complex_numpy
+    for _ in range(10 * n):
+        sa = _cshape(rng, with_slice=False)
+        last = rng.choice([2, 2, 2, 1, 3])
+        x = _ints(rng, sa + [last], -9, 9)
+
+        def post_np(z, sa=sa):
+            return "ok " + " ".join(map(str, z.shape)) + " | " + " ".join(str(int(v)) for v in z.real.reshape(-1)) + " | " + \
+                " ".join(str(int(v)) for v in z.imag.reshape(-1))
+        lx, tx = V(x)
+        yield case(line("tcn", *G(x)), lambda x=lx: T.tensor_to_complex_numpy(x), (lx,), x.numel() > 2,
+                   "tensor_to_complex_numpy" + ("" if last == 2 else "/no-pair-axis"), post_np, tags=(tx,))
+        yield case(line("vrt", *G(x)), lambda x=x: T.view_as_real(T.view_as_complex(x)), (x,), x.numel() > 2,
+                   "view_as_real∘view_as_complex" + ("" if last == 2 else "/no-pair-axis"))
+    # ---- malformed stream: no pair axis, shapes that do not broadcast, axes out of range, matrix shapes
     for _ in range(25 * n):
         sa = _cshape(rng, with_slice=False)
-        kind = rng.choice(["no-pair-axis", "no-broadcast", "axis-range", "mm-inner"])
+        kind = rng.choice(["no-pair-axis", "no-broadcast", "axis-range", "mm-inner", "mm-rank", "bmm-batch", "bmm-rank", "bmm-inner"])
+        cc = lambda t: torch.view_as_complex(t)  # noqa: E731
         if kind == "no-pair-axis":
             a, b = _ints(rng, sa + [rng.choice([1, 3])], -3, 3), _ints(rng, sa + [2], -3, 3)
             op = rng.choice(["cmul", "cdiv", "conj", "reduce", "expand"])
             if op == "conj":
-                yield {"line": line("conj", *G(a)), "impl": _impl(lambda a=a: T.conjugate(a)), "nontrivial": True, "bucket": "malformed/" + kind}
+                yield case(line("conj", *G(a)), lambda a=a: T.conjugate(a), (a,), True, "malformed/" + kind)
             elif op in ("cmul", "cdiv"):
                 fn = T.complex_multiplication if op == "cmul" else T.complex_division
                 if rng.random() < 0.5:
                     a, b = b, a
-                yield {"line": line(op, *G(a), *G(b)), "impl": _impl(lambda a=a, b=b, fn=fn: fn(a, b)), "nontrivial": True,
-                       "bucket": "malformed/" + kind}
+                yield case(line(op, *G(a), *G(b)), lambda a=a, b=b, fn=fn: fn(a, b), (a, b), True, "malformed/" + kind)
             else:
                 fn = T.reduce_operator if op == "reduce" else T.expand_operator
-                yield {"line": line(op, *G(a), *G(b), [0]), "impl": _impl(lambda a=a, b=b, fn=fn: fn(a, b, dim=0)), "nontrivial": True,
-                       "bucket": "malformed/" + kind}
+                yield case(line(op, *G(a), *G(b), [0]), lambda a=a, b=b, fn=fn: fn(a, b, dim=0), (a, b), True, "malformed/" + kind)
         elif kind == "no-broadcast":
             sb = list(sa)
             j = rng.randrange(len(sb))
             sa[j], sb[j] = 2, 3
             a, b = _ints(rng, sa + [2], -3, 3), _ints(rng, sb + [2], -3, 3)
             op, fn = rng.choice([("cmul", T.complex_multiplication), ("cdiv", T.complex_division)])
-            yield {"line": line(op, *G(a), *G(b)), "impl": _impl(lambda a=a, b=b, fn=fn: fn(a, b)), "nontrivial": True,
-                   "bucket": "malformed/" + kind}
+            yield case(line(op, *G(a), *G(b)), lambda a=a, b=b, fn=fn: fn(a, b), (a, b), True, "malformed/" + kind)
         elif kind == "axis-range":
             a, b = _ints(rng, sa + [2], -3, 3), _ints(rng, sa + [2], -3, 3)
             d = len(sa) + rng.randint(2, 3)
+            if rng.random() < 0.4:
+                d = -d - 1
             op, fn = rng.choice([("reduce", T.reduce_operator), ("expand", T.expand_operator)])
-            yield {"line": line(op, *G(a), *G(b), [d]), "impl": _impl(lambda a=a, b=b, fn=fn, d=d: fn(a, b, dim=d)), "nontrivial": True,
-                   "bucket": "malformed/" + kind}
+            yield case(line(op, *G(a), *G(b), [d]), lambda a=a, b=b, fn=fn, d=d: fn(a, b, dim=d), (a, b), True, "malformed/" + kind)
         else:
-            a, b = _ints(rng, [2, 3, 2], -3, 3), _ints(rng, [2, 2, 2], -3, 3)
-            yield {"line": line("mm", *G(a), *G(b)),
-                   "impl": _impl(lambda a=a, b=b: torch.view_as_real(T.complex_mm(torch.view_as_complex(a), torch.view_as_complex(b)))),
-                   "nontrivial": True, "bucket": "malformed/" + kind}
+            shapes = {"mm-inner": ([2, 3, 2], [2, 2, 2]), "mm-rank": rng.choice([([3, 2], [3, 2, 2]), ([1, 2, 3, 2], [3, 2, 2]), ([2, 3, 2], [3, 2])]),
+                      "bmm-batch": ([2, 2, 3, 2], [3, 3, 2, 2]), "bmm-rank": rng.choice([([2, 3, 2], [3, 2, 2]), ([2, 2, 3, 2], [3, 2, 2])]),
+                      "bmm-inner": ([2, 2, 3, 2], [2, 2, 2, 2])}[kind]
+            a, b = _ints(rng, shapes[0], -3, 3), _ints(rng, shapes[1], -3, 3)
+            op, fn = ("mm", T.complex_mm) if kind.startswith("mm") else ("bmm", T.complex_bmm)
+            yield case(line(op, *G(a), *G(b)), lambda a=a, b=b, fn=fn: torch.view_as_real(fn(cc(a), cc(b))), (a, b), True,
+                       "malformed/" + kind)
 
 
 # --------------------------------------------------------------------------------------------------
@@ -673,6 +791,251 @@ def _callsite_expr_case(T, rec, seed):
     return bad, None
 
 
+# --------------------------------------------------------------------------------------------------
+# inline re-implementations: the REAL source expression of every inline site of the translated table is evaluated with
+# tensors bound to its operands and compared with reduce_operator / expand_operator / root_sum_of_squares
+def _site_rows():
+    from translate.recipes.c02 import scan_coil_sites
+    try:
+        rows = scan_coil_sites(_core.REPO)
+    except Exception:  # noqa: BLE001  (unparsable file: the translator reports it; nothing to evaluate here)
+        return []
+    seen: dict[str, int] = {}
+    for row in rows:                                     # ordinal among sites with the same description (stable within a tree)
+        base = f"{row['file']}::{row['func']}::{row['kind']}::{row.get('conj', '')}{row.get('unsq', '')}|{row.get('other', '')[:40]}"
+        row["ord"] = seen.get(base, 0)
+        seen[base] = row["ord"] + 1
+    return rows
+
+
+_SENS_NAMES = ("sensitivity_map", "sample['sensitivity_map']", "data['sensitivity_map']")
+
+
+def _site_id(row) -> str:
+    return f"{row['file']}::{row['func']}::{row['kind']}::{row.get('conj', '')}{row.get('unsq', '')}|{row.get('other', '')[:40]}#{row.get('ord', 0)}"
+
+
+def _site_axis_case(T, row, r):
+    """a call of reduce_operator / expand_operator / root_sum_of_squares whose axis argument is not the class's coil-dimension
+    attribute / a `coil_dim` name: evaluate the written axis and show an input on which it differs from the declared coil axis"""
+    d = row.get("dim")
+    if d is None:
+        written = 0
+    elif isinstance(d, _ast.Name) or (isinstance(d, _ast.Attribute) and isinstance(d.value, _ast.Name) and d.value.id == "self"
+                                      and d.attr in ("_coil_dim", "coil_dim")):
+        return [], None                                 # the coil axis by name: nothing to evaluate
+    else:
+        attrs = dict(_literal_attrs(row["cls"])) if row.get("cls") is not None else {}
+        if row["declared"] is not None:
+            attrs["_coil_dim"] = attrs["coil_dim"] = row["declared"]
+        try:
+            written = eval(compile(_ast.Expression(d), "<dim>", "eval"), {"self": _types.SimpleNamespace(**attrs)})  # noqa: S307
+        except Exception:  # noqa: BLE001
+            return None, f"axis expression `{_ast.unparse(d)}` cannot be evaluated"
+    coil = row["declared"]
+    if coil is None or not isinstance(written, int):
+        return None, "the class declares no literal coil axis"
+    if written == coil:
+        return [], None
+    rank = max(coil, written if written >= 0 else 0) + 2
+    shape = [r.choice([2, 3]) for _ in range(rank)]
+    shape[coil] = 4
+    S, y = _ints(r, shape + [2], -4, 4), _ints(r, shape + [2], -4, 4)
+    fn = {"reduceCall": lambda ax: T.reduce_operator(y, S, dim=ax),
+          "expandCall": lambda ax: T.expand_operator(y.select(coil, 0), S, dim=ax),
+          "rssCall": lambda ax: T.root_sum_of_squares(S, dim=ax)}[row["kind"]]
+    ref = fn(coil)
+    try:
+        got = fn(written)
+        same = got.shape == ref.shape and torch.equal(got, ref)
+        obs = list(got.shape)
+    except Exception as e:  # noqa: BLE001
+        same, obs = False, f"raises {err_name(e)}"
+    if same:
+        return [], None
+    return [("callsite/axis-mismatch", f"{row['file']}:{row['line']} {row['func']}: `{_ast.unparse(row['node'])[:100]}` operates along axis "
+                                        f"{written}, the class declares the coil axis {coil} (differs on a {shape} input)", obs)], None
+
+
+def _site_eval_case(T, row, seed):
+    """-> (failures [(key, what, observed)] | None when the site cannot be evaluated, note)"""
+    import random
+    from translate.recipes.c02 import _arg, _summed_dim  # noqa: F401
+
+    r = random.Random(seed)
+    kind = row["kind"]
+    if kind in ("reduceCall", "expandCall", "rssCall"):
+        return _site_axis_case(T, row, r)
+    if kind not in ("inlineReduce", "inlineExpand", "inlineRss"):
+        return None, None
+    call = row["node"]
+    attrs = dict(_literal_attrs(row["cls"])) if row.get("cls") is not None else {}
+    coil = row["declared"] if row["declared"] is not None else r.choice([0, 1])
+    ns_attrs = {"_coil_dim": coil, "coil_dim": coil, "_complex_dim": -1, "complex_dim": -1}
+    ns_attrs.update({k: v for k, v in attrs.items() if isinstance(v, int)})
+    ns_attrs["_coil_dim"] = ns_attrs["coil_dim"] = coil
+    rank = max(coil + 1, 2) + r.choice([1, 2])
+    shape = [r.choice([1, 2, 3]) for _ in range(rank)]
+    shape[coil] = r.choice([2, 3, 4])
+    S = _ints(r, shape + [2], -4, 4)
+    env = {"T": T, "torch": torch, "self": _types.SimpleNamespace(**ns_attrs), "coil_dim": coil, "complex_dim": -1,
+           "complex_multiplication": T.complex_multiplication, "conjugate": T.conjugate}
+
+    def ev(node):
+        return eval(compile(_ast.Expression(_ast.fix_missing_locations(node)), f"<{row['file']}:{row['line']}>", "eval"), dict(env))  # noqa: S307
+
+    import copy
+    a = list(call.args) if kind != "inlineRss" else None
+    try:
+        if kind == "inlineReduce":
+            i = row["conj_index"]
+            conj_is_sens, other_is_sens = row["conj"] in _SENS_NAMES, row["other"] in _SENS_NAMES
+            if conj_is_sens == other_is_sens:
+                return None, "neither / both operands are named like the sensitivity map"
+            y = _ints(r, shape + [2], -4, 4)
+            env["__c"], env["__o"] = (S, y) if conj_is_sens else (y, S)
+            node = copy.deepcopy(call)
+            node.args[i].args[0] = _ast.Name("__c", _ast.Load())
+            node.args[1 - i] = _ast.Name("__o", _ast.Load())
+            dnode = copy.deepcopy(row["dim"])
+            if dnode is None:
+                return None, "the product is summed without an axis"
+            got = ev(_ast.Call(_ast.Attribute(node, "sum", _ast.Load()), [dnode], []))
+            ref = T.reduce_operator(y, S, dim=coil)
+            what = f"`{_ast.unparse(call)[:110]}`.sum({_ast.unparse(dnode)}) differs from reduce_operator(data, sensitivity_map, {coil})"
+        elif kind == "inlineExpand":
+            i = row["unsq_index"]
+            unsq_is_sens, other_is_sens = row["unsq"] in _SENS_NAMES, row["other"] in _SENS_NAMES
+            if unsq_is_sens == other_is_sens:
+                return None, "neither / both operands are named like the sensitivity map"
+            x = _ints(r, shape[:coil] + shape[coil + 1:] + [2], -4, 4)
+            env["__u"], env["__o"] = (S, x) if unsq_is_sens else (x, S)
+            node = copy.deepcopy(call)
+            node.args[i].func.value = _ast.Name("__u", _ast.Load())
+            node.args[1 - i] = _ast.Name("__o", _ast.Load())
+            got = ev(node)
+            ref = T.expand_operator(x, S, dim=coil)
+            what = f"`{_ast.unparse(call)[:110]}` differs from expand_operator(image, sensitivity_map, {coil})"
+        else:
+            env["__o"] = S
+            node = copy.deepcopy(call)
+            node.func.value.func.value.left = _ast.Name("__o", _ast.Load())
+            got = ev(node)
+            ref = (S.double() ** 2).sum(-1).sum(coil).float()
+            what = f"`{_ast.unparse(call)[:110]}` differs from root_sum_of_squares(sensitivity_map, {coil})**2"
+    except Exception as e:  # noqa: BLE001
+        return [("callsite/inline-raises", f"{row['file']}:{row['line']} {row['func']}: evaluating the inline expression raises "
+                                           f"{err_name(e)}: {e}"[:240], repr(e)[:160])], None
+    if not isinstance(got, torch.Tensor) or got.shape != ref.shape or not torch.equal(got, ref):
+        obs = list(got.shape) if isinstance(got, torch.Tensor) and got.shape != ref.shape else \
+            (float((got - ref).abs().max()) if isinstance(got, torch.Tensor) else repr(got)[:80])
+        return [("callsite/inline-mismatch", f"{row['file']}:{row['line']} {row['func']}: {what}", obs)], None
+    return [], None
+
+
+# --------------------------------------------------------------------------------------------------
+# call histories on shared buffers, memory layouts, dtypes, aliasing
+_DTYPES = {"f32": torch.float32, "f64": torch.float64, "f16": torch.float16, "i64": torch.int64}
+
+
+def _history_case(T, seed):
+    """a short history of calls on the SAME tensors (refilled in place between rounds, as a training loop reuses buffers), in a
+    random memory layout and dtype: every call must equal the native result for the values it was given, leave its arguments
+    untouched, and return storage that neither aliases an argument nor is changed by later calls.
+    -> (failures [(key, what, observed)], bucket)"""
+    import random
+
+    r = random.Random(seed)
+    base = _cshape(r)
+    base.pop(1)
+    dim = r.randrange(len(base) + 1)
+    c = r.choice([1, 2, 3, 4])
+    ss = base[:dim] + [c] + base[dim:]
+    dts = r.choice(["f32", "f32", "f64", "f16", "i64"])
+    dt = _DTYPES[dts]
+    lay = lambda t: _layout(r, t, ("contig", "perm", "strided", "offset"))[0]  # noqa: E731
+    sS = list(ss)
+    bc = r.random() < 0.3
+    if bc:                                                  # sensitivity map with a singleton non-coil axis (broadcast)
+        j = r.choice([k for k in range(len(ss)) if k != dim])
+        sS[j] = 1
+    S, x, y = (lay(_ints(r, sh + [2], -4, 4).to(dt)) for sh in (sS, base, ss))
+    neg = r.random() < 0.4
+    da = dim - (len(base) + 2) if neg else dim
+    bad, kept = [], []
+    C = lambda t: torch.view_as_complex(t.double().clone(memory_format=torch.contiguous_format))  # noqa: E731
+    R = lambda z: torch.view_as_real(z)  # noqa: E731
+
+    def val(t):
+        return t.double() if isinstance(t, torch.Tensor) else torch.as_tensor(t)
+
+    rounds = r.randint(2, 4)
+    for k in range(rounds):
+        if k:                                               # the caller refills the same buffers
+            for t in (S, x, y):
+                if r.random() < 0.7:
+                    t.copy_(_ints(r, list(t.shape), -4, 4).to(dt))
+        refs = {"expand_operator": R(C(S) * C(x).unsqueeze(dim)), "reduce_operator": R((C(S).conj() * C(y)).sum(dim)),
+                "conjugate": R(C(S).conj().resolve_conj()), "complex_multiplication": R(C(S) * C(y)),
+                "root_sum_of_squares": (S.double() ** 2).sum(-1).sum(dim),       # squared
+                "complex_dot_product": R((C(y).conj() * C(y)).sum(dim))}
+        calls = {"expand_operator": lambda: T.expand_operator(x, S, dim=da), "reduce_operator": lambda: T.reduce_operator(y, S, dim=da),
+                 "conjugate": lambda: T.conjugate(S), "complex_multiplication": lambda: T.complex_multiplication(S, y),
+                 "root_sum_of_squares": lambda: T.root_sum_of_squares(S, dim=(dim - (len(base) + 1) if neg else dim)),
+                 "complex_dot_product": lambda: T.complex_dot_product(y, y, [da])}
+        order = list(calls)
+        r.shuffle(order)
+        for name in order:
+            snap = [t.clone() for t in (S, x, y)]
+            try:
+                out = calls[name]()
+            except Exception as e:  # noqa: BLE001
+                bad.append((f"history/raises:{name}", f"{name} raises {err_name(e)} on a valid input ({dts}, round {k})", repr(e)[:160]))
+                continue
+            if any(not _same(u, v) for u, v in zip((S, x, y), snap)):
+                bad.append((f"history/modifies-input:{name}", f"{name} modifies one of its arguments in place", None))
+                for u, v in zip((S, x, y), snap):
+                    u.copy_(v)
+            ref = refs[name]
+            o = val(out)
+            if name == "root_sum_of_squares":
+                ok = o.shape == ref.shape and bool(torch.all((o - ref.sqrt()).abs() <= (2e-3 if dts == "f16" else 1e-5) * ref.sqrt().clamp(min=1.0)))
+            else:
+                ok = o.shape == ref.shape and torch.equal(o, ref)
+            if not ok:
+                bad.append((f"history/value:{name}", f"{name} differs from native complex arithmetic in round {k} of a call history on "
+                                                      f"shared buffers ({dts}, coil axis {da})",
+                            float((o - (ref.sqrt() if name == 'root_sum_of_squares' else ref)).abs().max()) if o.shape == ref.shape else list(o.shape)))
+            if dts != "i64" and out.dtype != dt:
+                bad.append((f"history/dtype:{name}", f"{name} returns {out.dtype} for {dt} arguments", str(out.dtype)))
+            kept.append((name, k, out, out.clone()))
+        # exact adjointness in every round (inner products in float64)
+        try:
+            lhs = complex((C(T.expand_operator(x, S, dim=da)).conj() * C(y)).sum())
+            rhs = complex((C(x).conj() * C(T.reduce_operator(y, S, dim=da))).sum())
+            if lhs != rhs:
+                bad.append(("history/adjointness", f"<E x, y> != <x, R y> in round {k} ({dts})", [str(lhs), str(rhs)]))
+        except Exception:  # noqa: BLE001  (already reported above)
+            pass
+    for name, k, out, clone in kept:                        # results of earlier calls are not overwritten by later ones
+        if not _same(out, clone):
+            bad.append((f"history/result-overwritten:{name}", f"the tensor returned by {name} in round {k} was changed by a later call", None))
+    # aliasing: writing into a result must not change an argument
+    for name, fn in (("conjugate", lambda: T.conjugate(S)), ("expand_operator", lambda: T.expand_operator(x, S, dim=da)),
+                     ("reduce_operator", lambda: T.reduce_operator(y, S, dim=da)), ("complex_multiplication", lambda: T.complex_multiplication(S, y))):
+        snap = [t.clone() for t in (S, x, y)]
+        try:
+            out = fn()
+            out.zero_()
+        except Exception:  # noqa: BLE001
+            continue
+        if any(not _same(u, v) for u, v in zip((S, x, y), snap)):
+            bad.append((f"history/aliasing:{name}", f"the result of {name} shares storage with an argument (zeroing it changed the argument)", None))
+            for u, v in zip((S, x, y), snap):
+                u.copy_(v)
+    return bad, f"{dts}/dim{dim}" + ("/negative-dim" if neg else "") + ("/sens-singleton" if bc else "")
+
+
 def _safe_divide_case(T, seed):
     """one random case of safe_divide (everything derived from `seed`) -> (failures, bucket)"""
     import random
@@ -787,6 +1150,11 @@ def _native_case(T, seed):
     d2 = r.randrange(rank)
     chk("rss-native/real-data" + ("/negative-axis" if neg else ""), lambda: T.root_sum_of_squares(real, dim=d2 - rank if neg else d2),
         (real ** 2).sum(d2).sqrt())
+    # the rarely used `complex_dim` option (data whose last axis has length 2 counts as complex; the squares are summed over
+    # `complex_dim` first, then over `dim` of what remains) — as documented
+    cd, dd = r.randrange(rank), r.randrange(rank)
+    chk("rss-native/complex_dim-option", lambda: T.root_sum_of_squares(a, dim=dd, complex_dim=cd), (a ** 2).sum(cd).sum(dd).sqrt())
+    chk("rss-native/complex_dim-option", lambda: T.root_sum_of_squares(a, dim=d, complex_dim=rank), (ca.abs() ** 2).sum(d).sqrt())
     # matrix products
     bb, n, m, p = r.randint(1, 3), r.randint(1, 4), r.randint(1, 4), r.randint(1, 4)
     A, B = torch.randn(bb, n, m, 2, generator=g), torch.randn(bb, m, p, 2, generator=g)
@@ -886,6 +1254,34 @@ def oracle(ctx: Ctx, deep: bool = False):
             for key, what in bad:
                 yield Violation(key, what, {"op": "callsite-method", "module": module, "class": cls_name, "method": meth,
                                             "attrs": list(attrs), "seed": seed, "law": key})
+    # (2c) the same on call histories with shared (refilled) buffers, non-contiguous layouts, float64 / float16 / int64 data,
+    #      singleton-broadcast sensitivity maps; arguments untouched, results fresh
+    for _ in range(ctx.budget(60, 600) * (3 if deep else 1)):
+        seed = rng.randrange(2 ** 31)
+        bad, bucket = _history_case(T, seed)
+        ctx.count(("history", seed), True, bucket="oracle/history/" + bucket)
+        for key, what, obs in bad:
+            yield Violation(key, what, {"op": "history", "seed": seed, "law": key, "observed": obs})
+    # (2d) every inline site of the translated call-site table: the real source expression, evaluated
+    rows = _site_rows()
+    site_kinds: dict[str, int] = {}
+    site_unres = []
+    for row in rows:
+        site_kinds[row["kind"]] = site_kinds.get(row["kind"], 0) + 1
+        if row["kind"] not in ("inlineReduce", "inlineExpand", "inlineRss", "reduceCall", "expandCall", "rssCall"):
+            continue
+        is_call = row["kind"].endswith("Call")
+        for _ in range(1 if is_call else ctx.budget(2, 10)):
+            seed = rng.randrange(2 ** 31)
+            bad, note = _site_eval_case(T, row, seed)
+            if bad is None:
+                site_unres.append(f"{row['file']}:{row['line']} {row['kind']}: {note}")
+                break
+            ctx.count(("site-eval", _site_id(row), seed), not is_call, bucket=f"oracle/site-eval/{row['kind']}")
+            for key, what, obs in bad:
+                yield Violation(key, what, {"op": "site-eval", "site": _site_id(row), "seed": seed, "law": key, "observed": obs})
+    ctx.notes.append(f"coil-operator call-site table (all of direct/ except transforms.py): {len(rows)} sites {site_kinds}; inline sites "
+                     f"evaluated from their source; not evaluated: {site_unres}")
     kinds: dict[str, int] = {}
     sens_conj, other_conj = [], []
     for rec in exprs:
@@ -1063,6 +1459,15 @@ def replay(rep: dict) -> bool:
             for rec in exprs:
                 if rec["file"] == rep["file"] and rec["line"] == rep["line"]:
                     bad, _ = _callsite_expr_case(T, rec, rep["seed"])
+                    return bool(bad)
+            return False
+        if op == "history":
+            bad, _ = _history_case(T, rep["seed"])
+            return any(k == rep["law"] for k, _, _ in bad)
+        if op == "site-eval":
+            for row in _site_rows():
+                if _site_id(row) == rep["site"]:
+                    bad, _ = _site_eval_case(T, row, rep["seed"])
                     return bool(bad)
             return False
         if op == "safe-divide":
